@@ -31,14 +31,14 @@ pub struct GenFile {
     pub lines: BTreeMap<usize, u16>,
 }
 
-#[derive(Clone, Copy, Debug, PartialEq, Eq)]
+#[derive(Clone, Copy, Debug, PartialEq, Eq, serde::Serialize, serde::Deserialize)]
 pub enum Role {
     Absent,
     Define,
     Extern,
 }
 
-#[derive(Clone, Debug)]
+#[derive(Clone, Debug, PartialEq, serde::Serialize, serde::Deserialize)]
 pub struct FileOpts {
     pub id: usize,
     /// (origin, number of statements) per block; the caller guarantees the ranges do not overlap within the file
